@@ -215,6 +215,12 @@ def c05b(ctx):
             tt, ft = df.bool_edges(d, sw[0])
             if not d.edge_dominates((sw[0], ft), ab[0].bb) or d.must_pass([ft], [ab[0].bb]):
                 ctx.fail(o, ab[0], "abort_callee must run exactly on the not-defused path")
+    oo = ctx.ob("C05.b", "UndoRegisterCallee/defuse-disarms", "K5", "UndoRegisterCallee::defuse sets `defused` to true and nothing else")
+    dfz = ctx.touch(prog.body("UndoRegisterCallee::defuse"))
+    st = dfz.assigns(lambda st_: any(e.startswith("f:defused") for e in st_["lhs"][1]))
+    oo.sites = len(st)
+    if len(st) != 1 or (st[0].node["rv"].get("op") or {}).get("c", {}).get("s") != "true":
+        ctx.fail(oo, Site(dfz, 0, 0), "UndoRegisterCallee::defuse does not set `defused = true`: a completed call would still un-register its callee when the token is dropped")
     o = ctx.ob("C05.b", "UndoRegisterCallee/defuse-sites", "K3+K4", "the undo token is defused only after a Hit or when reporting a cycle")
     sites = prog.callers_of(r"register_callee::UndoRegisterCallee::defuse$")
     ctx.floor(o, sites, 2, "defuse call sites")
